@@ -6,14 +6,14 @@ from vf.core import Property
 from vf import parsing as P
 
 
-def expected_log(items, regs, overridden, validate):
+def expected_log(items, regs, overridden, validate, known_types=(), known_sources=()):
     """Independent statement of the dispatch rule (no shared code with the Lean model)."""
     typeH, srcH = {}, {}
     for kind, keys, hid in regs:
         d = typeH if kind == 'type' else srcH
         for k in keys:
             d.setdefault(k, []).append(hid)
-    log, types, sources = [], set(), set()
+    log, types, sources = [], set(known_types), set(known_sources)
     delivered = {}
     n = 0
     for it in items:
@@ -49,7 +49,7 @@ class C14(Property):
     design_ref = 'DESIGN.md section 10, C14'
     required_theorems = (
         'dispatch_exact', 'dispatch_history_free', 'events_once_in_order', 'ontology_before_use',
-        'counters_eq_delivered',
+        'counters_eq_delivered', 'reuse_dispatch_exact',
     )
     level_text = ('Lean 4 theorems over the parser state machine (model of _parse_edxml / __parse_event / '
                   '_get_event_handlers / __process_ontology): for every document and registration set the invocation '
@@ -57,19 +57,21 @@ class C14(Property):
                   'matching source pattern (or the overridden _parsed_event), independent of the events before it; '
                   'an ontology callback defining type and source precedes every delivered event; counters equal the '
                   'number of delivered events. Compared with the instrumented pull and push parsers on generated '
-                  'documents and registration sets.')
+                  'documents and registration sets, and on sequences of documents given to one parser object (reuse_dispatch_exact: '
+                  'the same rule with the types and sources of all documents so far; the event counter counts the document, the '
+                  'per-type counters all documents).')
     level_note = ('Proof is about the token-level machine; ontology elements are abstracted to validity + defined '
                   'type/source names, the gate verdict is an input bit (C03), re.match is a table computed by the harness; '
                   'lxml tokenisation is modelled.')
     technique = 'Lean 4 proof (invariants of the parser state machine by induction over the document) + differential correspondence'
     parallel = True
-    assumptions = ('handlers do not raise and do not register further handlers while parsing',)
+    assumptions = ('handlers do not raise and do not register further handlers while parsing; they may edit the event they are given',)
 
     def rule(self):
         return ('cases: document (1..4 ontology elements incl. invalid ones, 0..14 events of 3 types x 3 sources incl. '
                 'undefined/invalid ones, foreign elements) x registration set (0..4 handlers over type keys and source '
                 'patterns, overlapping patterns, repeated registration, overridden _parsed_event or not) x parser '
-                '(pull, push with random chunking) x validation on/off; non-trivial = at least one event delivered '
+                '(pull, push with random chunking) x validation on/off; two or three documents through one pull parser; non-trivial = at least one event delivered '
                 'to a registered handler; distinct by content')
 
     def generate(self, rng, tier):
@@ -78,11 +80,28 @@ class C14(Property):
             # a consumer built on the parser: edxml-to-delimited prints every event of one type once, in document order
             items = [it for it in P.gen_items(rng, rng.randint(1, 12), faults=False) if it['k'] != 'foreign']
             yield {'kind': 'cli', 'items': items, 'type': rng.choice(P.TYPES)}
+        for _ in range(60 if tier == 'quick' else 1500):
+            # one pull parser given two or three documents one after the other (parse() again): later documents use types and
+            # sources that earlier ones defined
+            docs = []
+            for d in range(rng.randint(2, 3)):
+                items = P.gen_items(rng, rng.randint(0, 8), faults=(d > 0 and rng.random() < 0.3))
+                for it in items:
+                    if 'idx' in it:
+                        it['idx'] += 100 * d
+                docs.append(items)
+            yield {'kind': 'reuse', 'docs': docs, 'regs': P.gen_regs(rng) or [['src', [rng.choice(P.PATTERNS)], 0]],
+                   'overridden': rng.random() < 0.5, 'validate': rng.random() < 0.8}
         for _ in range(n):
             items = P.gen_items(rng, rng.randint(0, 14))
             regs = P.gen_regs(rng)
-            yield {'items': items, 'regs': regs, 'overridden': rng.random() < 0.5, 'validate': rng.random() < 0.8,
-                   'mode': rng.choice(['pull', 'push']), 'cutseed': rng.randint(0, 10 ** 6), 'version': '3.0.0'}
+            c = {'items': items, 'regs': regs, 'overridden': rng.random() < 0.5, 'validate': rng.random() < 0.8,
+                 'mode': rng.choice(['pull', 'push']), 'cutseed': rng.randint(0, 10 ** 6), 'version': '3.0.0'}
+            if regs and rng.random() < 0.2:
+                # one of the handlers changes the type of every event it is given (to a type the document defines from the start)
+                first = [it for it in items if it['k'] == 'ont'][0]
+                c['retype'] = [rng.choice(regs)[2], rng.choice(first['types'])]
+            yield c
 
     def observe(self, case):
         import random
@@ -99,18 +118,24 @@ class C14(Property):
             finally:
                 os.unlink(name)
             return {'outcome': outcome, 'rows': out.decode('utf-8').split('\n')[:-1]}
+        if case.get('kind') == 'reuse':
+            datas = [P.build_document(items)[0] for items in case['docs']]
+            return {'docs': P.run_parser_reuse(datas, case['regs'], case['overridden'], case['validate'])}
         data, _ends = P.build_document(case['items'], case.get('version', '3.0.0'))
         cuts = None
         if case['mode'] == 'push':
             r = random.Random(case['cutseed'])
             cuts = sorted(r.sample(range(1, len(data)), min(len(data) - 1, r.randint(0, 12))))
-        return P.run_parser(data, case['mode'], case['regs'], case['overridden'], case['validate'], cuts)
+        return P.run_parser(data, case['mode'], case['regs'], case['overridden'], case['validate'], cuts, retype=case.get('retype'))
 
     def requests(self, case):
         if case.get('kind') == 'cli':
             # the tool is a parser whose event callback prints: one type handler (id 0) for the requested type
             return [{'op': 'parse', 'reg': P.make_registry([['type', [case['type']], 0]], False, True),
                      'chunks': [P.model_items(case['items'])], 'rootEnd': True, 'versionOk': True}]
+        if case.get('kind') == 'reuse':
+            return [{'op': 'parse', 'reg': P.make_registry(case['regs'], case['overridden'], case['validate']),
+                     'docs': [{'items': P.model_items(items), 'versionOk': True} for items in case['docs']]}]
         return [{'op': 'parse', 'reg': P.make_registry(case['regs'], case['overridden'], case['validate']),
                  'chunks': [P.model_items(case['items'])], 'rootEnd': True,
                  'versionOk': case.get('version', '3.0.0') == '3.0.0'}]
@@ -119,6 +144,14 @@ class C14(Property):
         if case.get('kind') == 'cli':
             r = replies[0]
             return {'outcome': None if r['err'] is None else r['err'], 'rows': ['v%d' % c[-1] for c in r['log'] if c[0] == 'h']}
+        if case.get('kind') == 'reuse':
+            out = []
+            for rep, items in zip(replies[0]['docs'], case['docs']):
+                v = P.model_view(rep, items)
+                if not any(c[0] in ('h', 'fb', 'f') for c in v['log']):
+                    v['children'] = None
+                out.append(v)
+            return {'docs': out}
         v = P.model_view(replies[0], case['items'])
         # the number of children is only observable when some callback saw the tree
         saw_tree = any(c[0] in ('h', 'fb', 'f') for c in v['log'])
@@ -134,6 +167,34 @@ class C14(Property):
                 return None
             if obs['rows'] != want:
                 return 'edxml-to-delimited printed %r for the events %r of type %s' % (obs['rows'], want, case['type'])
+            return None
+        if case.get('kind') == 'reuse':
+            # every document by the rule for a single document, with the types and sources of the earlier documents known
+            # from the start; the event counter counts the document, the per-type counters all documents
+            types, sources, before = set(), set(), {}
+            for k, (items, o) in enumerate(zip(case['docs'], obs['docs'])):
+                log, n, delivered, err = expected_log(items, case['regs'], case['overridden'], case['validate'], types, sources)
+                evs = lambda lg: [c for c in lg if c[0] in ('h', 'fb', 'f')]   # noqa: E731
+                if evs(o['log']) != evs(log):
+                    for i, (a, b) in enumerate(zip(evs(o['log']) + [None], evs(log) + [None])):
+                        if a != b:
+                            return 'document %d given to the same parser: event/foreign callback %d is %r, expected %r' % (k + 1, i, a, b)
+                if o['err'] != err:
+                    return 'document %d given to the same parser: outcome %r, expected %r' % (k + 1, o['err'], err)
+                if o['nEvents'] != n:
+                    return 'document %d given to the same parser: event counter %d but %d events were delivered' % (k + 1, o['nEvents'], n)
+                for t, c in o['typeCount']:
+                    if c != before.get(t, 0) + delivered.get(t, 0):
+                        return 'document %d given to the same parser: counter of event type %s is %d but %d were delivered so far' % (
+                            k + 1, t, c, before.get(t, 0) + delivered.get(t, 0))
+                for t, c in delivered.items():
+                    before[t] = before.get(t, 0) + c
+                for it in items:
+                    if it['k'] == 'ont' and it['valid']:
+                        types |= set(it['types'])
+                        sources |= set(it['sources'])
+                if err is not None:
+                    break
             return None
         log, n, delivered, err = expected_log(case['items'], case['regs'], case['overridden'], case['validate'])
         ev = lambda lg: [c for c in lg if c[0] in ('h', 'fb', 'f')]
@@ -162,7 +223,7 @@ class C14(Property):
 
     def neighbours(self, case, rng):
         out = []
-        if case.get('kind') == 'cli':
+        if case.get('kind') in ('cli', 'reuse'):
             return []
         for _ in range(80):
             c = json.loads(json.dumps(case))
@@ -172,6 +233,8 @@ class C14(Property):
         return out
 
     def reductions(self, case):
+        if case.get('kind') == 'reuse':
+            return
         for i in range(len(case['items']) - 1, 0, -1):
             c = json.loads(json.dumps(case))
             del c['items'][i]
@@ -184,6 +247,8 @@ class C14(Property):
     def nontrivial(self, case):
         if case.get('kind') == 'cli':
             return json.dumps(case, sort_keys=True) if sum(1 for it in case['items'] if it['k'] == 'ont') > 1 else None
+        if case.get('kind') == 'reuse':
+            return json.dumps(case, sort_keys=True)
         if not case['regs'] or not any(it['k'] == 'event' for it in case['items']):
             return None
         return json.dumps(case, sort_keys=True)
